@@ -2,3 +2,19 @@ check("C07", "exploration",
       "Complete enumeration of stated finite input spaces (all corpus molecules, every element Z=1..118 in 13 forms, all generated molecules up to 3-5 heavy atoms, all tuples of a 40-molecule alphabet, all 135x135 composition-dict pairs) against an independent composition model; no sampling.",
       "Trusts RDKit's parser/valence model; molecules beyond the bounds are not covered.",
       "bounded-exhaustive input enumeration vs reference model (explicit-state generation of the molecule universe)", "DESIGN.md 4/C07")
+check("C01", "exploration",
+      "Every reaction of complete finite universes (all L>>R with multisets of size 1..2 over a molecule alphabet covering each pipeline shortcut, hand-built seam reactions, heavy/ionic/isotopic/stereo/mapped family, thresholds x batch sizes; thorough: full alphabet + complete validation corpus) is run through the real Balancer.rebalance; every solved row is re-counted by an independent composition model.",
+      "Trusts RDKit; worker count modelled by the controlled joblib seam; reactions outside the universes are not covered.",
+      "bounded-exhaustive input enumeration through the real pipeline vs independent composition oracle", "DESIGN.md 4/C01")
+check("C03", "exploration",
+      "Complete Rxn(A01,2) universe, hand-built/special families under batch sizes {None,1,3}, every reaction/reversal with a product-side carbon surplus (thorough: complete corpus) through the real pipeline; each row checked: declined => reaction == input_reaction and non-empty issue, solved => one of three methods and empty issue, carbon surplus => declined.",
+      "Default threshold 0; trusts RDKit for the independent carbon count.",
+      "bounded-exhaustive input enumeration through the real pipeline, row oracle", "DESIGN.md 4/C03")
+check("C04", "exploration",
+      "Every curated balanced corpus reaction (quick: an arithmetic slice, thorough: all ~4.4k) with reversal, doubling and neighbour union, and all members of Rxn(A01,2) / an ion+heavy-element alphabet for the converse, through the real pipeline; balanced (by the independent model) <=> input-balanced, unchanged.",
+      "Balance decided by an independent RDKit-based composition; closed-shell domain.",
+      "bounded-exhaustive input enumeration through the real pipeline vs independent balance oracle", "DESIGN.md 4/C04")
+check("C18", "exploration",
+      "Every run over consecutive slices of the complete Rxn(A01,2) universe and the hand-built/special families under thresholds {0,0.5,1} x batch sizes {None,1,2,3}; the stats dict is compared with counts taken from the returned rows.",
+      "Inputs are valid reactions; CLI .stats file covered by C05's CLI runs.",
+      "bounded-exhaustive enumeration of runs, stats-vs-rows oracle", "DESIGN.md 4/C18")
